@@ -53,20 +53,20 @@ func runC16(c *Ctx) {
 			n := calleeName(cs.Common())
 			switch n {
 			case "telemetry.parent":
-				r.Check("C16.dispatch", short(fn.Name())+"/parent only when the marker is empty", m.Pos(cs.Pos()), hasFact(factsAt(cs), strEq(isCV, "", true)),
+				r.Check("C16.dispatch", short(refName(fn))+"/parent only when the marker is empty", m.Pos(cs.Pos()), hasFact(factsAt(cs), strEq(isCV, "", true)),
 					"the application role (which may fork) is taken only when GO_TELEMETRY_CHILD is unset/empty")
 			case "telemetry.child":
-				r.Check("C16.dispatch", short(fn.Name())+"/child only when the marker is 1", m.Pos(cs.Pos()), hasFact(factsAt(cs), strEq(isCV, "1", true)),
+				r.Check("C16.dispatch", short(refName(fn))+"/child only when the marker is 1", m.Pos(cs.Pos()), hasFact(factsAt(cs), strEq(isCV, "1", true)),
 					"the sidecar role is taken only when GO_TELEMETRY_CHILD=1")
 			case "telemetry.startChild", "os/exec.Command", "telemetry.acquireUploadToken", "counter.Open":
-				r.Check("C16.dispatch", short(fn.Name())+"/no direct "+n, m.Pos(cs.Pos()), false, "Start/MaybeChild must only dispatch")
+				r.Check("C16.dispatch", short(refName(fn))+"/no direct "+n, m.Pos(cs.Pos()), false, "Start/MaybeChild must only dispatch")
 			}
 		}
 		// under marker "2": nothing but constructing the result / returning
 		for _, cs := range callsIn(fn) {
 			if hasFact(factsAt(cs), strEq(isCV, "2", true)) {
 				n := calleeName(cs.Common())
-				r.Check("C16.dispatch", short(fn.Name())+"/descendant does nothing: "+n, m.Pos(cs.Pos()), false, "a descendant of the sidecar (marker 2) must not run any telemetry logic; calls "+n)
+				r.Check("C16.dispatch", short(refName(fn))+"/descendant does nothing: "+n, m.Pos(cs.Pos()), false, "a descendant of the sidecar (marker 2) must not run any telemetry logic; calls "+n)
 			}
 		}
 	}
